@@ -642,7 +642,7 @@ theorem normParts_reparse_canon (puny : Str → Str) (hp : PunyLaws puny) (hPH :
   have hpa : ∀ f q f' q', normPath o p'.path f' q' = normPath o p.path f q := by
     intro f q f' q'
     have e : p'.path = Normpath.pathOut o.quoted p.path
-        (!p.query.isEmpty || truthy (some p.fragment)) := by
+        (hasMore puny false { p with scheme := s0 }) := by
       rw [hpath]; rfl
     rw [e]
     exact normPath_canon hPH o hsts hlc p.path hAbs (fun e => (hcl e).1) _ f q f' q'
